@@ -29,8 +29,8 @@ func (i *interpreter) typesType(name string) types.Type {
 func (i *interpreter) objID(v value) string {
 	switch v := v.(type) {
 	case *lazyIface:
-		if v.resolved != nil {
-			return i.objID(*v.resolved)
+		if v.resolved != nil && v.resolved.t == nil {
+			return "nil"
 		}
 		return "L:" + v.path
 	case iface:
@@ -41,6 +41,9 @@ func (i *interpreter) objID(v value) string {
 	case *value:
 		if v == nil {
 			return "nil"
+		}
+		if l, ok := i.path.lz.owner[v]; ok {
+			return "L:" + l.path
 		}
 		return "P:" + i.describeKey(v)
 	}
